@@ -96,7 +96,10 @@ def run(prop, tier, jkey, what, known_key, known_text, design, probes=()):
                    "OutOfFuel of the model stands for non-termination; generated loops are bounded"]
     # fixed probe programs of further recorded findings: (key, function -> (hit, what, source))
     for pk, fn in probes:
-        hit, pwhat, src = fn()
+        res = fn(tier) if getattr(fn, "wants_tier", False) else fn()
+        hit, pwhat, src = res[:3]
+        if len(res) > 3:
+            cov[pk.replace("-", "_")] = res[3]
         if pk in listed:
             known_lines.append("%s (%s)" % (listed[pk][:600], "re-observed on the probe program" if hit else "NOT re-observed: the probe program runs cleanly now"))
         elif hit:
@@ -107,6 +110,17 @@ def run(prop, tier, jkey, what, known_key, known_text, design, probes=()):
 
 def replay(prop, path):
     obj = json.load(open(path))
+    if "source" in obj and "case_line" not in obj:
+        # a probe / feature-sweep program: run the source again
+        binary = vlib.cargo_build("stsweep")
+        sp = os.path.join(vlib.CACHE, "%s_replay.st" % prop.lower())
+        open(sp, "w").write(obj["source"])
+        rc, out = vlib.run([binary, "--run", sp], timeout=120)
+        print(out.strip())
+        bad = any(t.startswith("S:") or t.startswith("T:") or t in ("PANIC", "FRAMES", "HANG") for t in out.split())
+        if bad:
+            print("VIOLATION property=%s replay=%s" % (prop, path))
+        return 1 if bad else 0
     harness = vlib.cargo_build("c01")
     vlib.coq_build([EXTRACT])
     driver = vlib.ocaml_build("C01")
